@@ -30,10 +30,11 @@ def _gen(ck, tier, wd, seed, nprob):
     one = [p for p in probs if len(p["p"]["axes"]) == 1]
     two = [p for p in probs if len(p["p"]["axes"]) == 2]
     three = [p for p in probs if len(p["p"]["axes"]) == 3]
-    for l in (one, two, three):
+    four = [p for p in probs if len(p["p"]["axes"]) == 4]
+    for l in (one, two, three, four):
         l.sort(key=lambda p: json.dumps(p, sort_keys=True))
         rnd.shuffle(l)
-    pick = one[: nprob * 2 // 5] + two[: nprob * 2 // 5] + three[: nprob // 5]
+    pick = one[: nprob * 2 // 5] + two[: nprob * 2 // 5] + three[: nprob // 5] + four[: nprob // 25]
     af, pf = os.path.join(wd, "axes.ndjson"), os.path.join(wd, "problems.ndjson")
     vlib.write_ndjson(af, axes)
     vlib.write_ndjson(pf, pick)
@@ -97,7 +98,7 @@ def run_c09(pid, tier, seed, replay=None):
         ck.cov["evaluations"] = len(fits)
         ck.cov["distinct_nontrivial"] = n - ck.cov["skipped_ill_posed"]
         ck.cov["problems_enumerated_by_tlc"] = total
-        ck.cov["rule"] = "seeded sample of the TLC-enumerated problems (half 1-D, half 2..3-D): axes x penalty orders x smoothing in {0,1,1e3,1e6} x dense/missing/sparse data x unit/varying weights x scalar/per-dimension arguments; each fitted plain, shuffled, with zero-weight extras and through the C API; plus one consistent 260 x 257 order-1 problem (positions in F beyond 2^32)"
+        ck.cov["rule"] = "seeded sample of the TLC-enumerated problems (two fifths 1-D, two fifths 2-D, a fifth 3-D, and 4-D problems on the three smallest axes): axes x penalty orders x smoothing in {0,1,1e3,1e6} x dense/missing/sparse data x unit/varying weights x scalar/per-dimension arguments; each fitted plain, shuffled, with zero-weight extras and through the C API; plus one consistent 260 x 257 order-1 problem (positions in F beyond 2^32)"
         return ck.finish(exhaustive=False)
     finally:
         if not os.environ.get("VERIF_KEEP"):
